@@ -206,6 +206,18 @@ def explicit_args(r, N, M, container):
     return conv(flips), conv(perm), conv(cperm)
 
 
+class _Tag(str):
+    pass
+
+
+import enum as _enum
+
+
+class _Mode(str, _enum.Enum):
+    fixed = "fixed"
+    shuffle = "shuffle"
+
+
 def case_library(ctx, size, rseed, count):
     tt.selfcheck()
     from cnfgen.transformations.shuffle import Shuffle
@@ -242,7 +254,13 @@ def case_library(ctx, size, rseed, count):
                 ctx.count("explicit_descending_range")
             if r.random() < 0.5:
                 # keywords computed at run time: equal to 'fixed' / 'shuffle' without being the same object
-                fresh = lambda a: ("-" + a)[1:] if isinstance(a, str) else a
+                kind = r.randrange(3)
+                if kind == 0:
+                    fresh = lambda a: ("-" + a)[1:] if isinstance(a, str) else a
+                elif kind == 1:
+                    fresh = lambda a: _Tag(a) if isinstance(a, str) else a          # an instance of a subclass of str
+                else:
+                    fresh = lambda a: _Mode(a) if isinstance(a, str) else a         # a member of a str-valued Enum
                 pf, vp, cp = fresh(pf), fresh(vp), fresh(cp)
                 if any(isinstance(a, str) for a in (pf, vp, cp)):
                     ctx.count("keywords_built_at_run_time")
